@@ -131,6 +131,9 @@ func runSelftest(args []string) int {
 			for i, o := range outs {
 				if o.Status != "ok" {
 					sigs[i] = o.Status
+					if ci == 0 {
+						fmt.Fprintf(os.Stderr, "NOTE: selftest seed %d: request %s (%s, parser %s) ended with status %s\n", s, reqs[i].ID, reqs[i].Kind, reqs[i].Parser, o.Status)
+					}
 					continue
 				}
 				b, _ := json.Marshal(o.Resp)
